@@ -40,6 +40,12 @@ Signatures
       with factors spanning ~6 orders of magnitude make the two lists differ in length.  The same
       swap repeated with the self-check switched off gives the right operator (that is how this
       class is told apart from `...:result-wrong-without-check`, which is NOT a known class).
+  swap:qr:AssertionError@check_swap_consistency:spurious-result-correct-without-check
+      the same for a swap carried out WITH the qr algorithm on an operator whose factors span >= 4 orders of magnitude: the
+      qr step leaves entries of relative size ~1e-8 which the self-check (rtol 1e-8, atol 1e-11, per-operator 1e-10 drop
+      threshold) takes for a logic error; the swap is refused (operator intact), with the check switched off the result
+      is right to rounding.  Recorded as an open finding.  `...:result-wrong-without-check` is NOT a known class (it was
+      the signature of D36 before its repair).
   The suffix :graph-only-history (no qr anywhere) has never been seen on the pinned tree.
 Total cancellation (every term cancels, no offset) makes Mpo raise ValueError like its own
 "Terms all have factor 0": counted as rejected, not reported.  swap_jw=True is C17's business.
@@ -287,11 +293,11 @@ def exec_swaps(bs, terms, offset, qn_size, via, algo, swaps, mpo=None):
                 # rounding-noise entries in the bond operators; keep that input class in the signature
                 hist = "" if cls == "qr" else (":qr-in-history" if uses_qr else ":graph-only-history")
                 fn = last_library_frame(e)
-                if cls == "graph" and fn == "check_swap_consistency":
+                if fn == "check_swap_consistency":
                     # Is the library's self-check right to object?  Repeat the same swap on the (unchanged)
                     # object with the self-check switched off and judge the result with the dense oracle.
-                    verdict = retry_without_selfcheck(mpo, new, salgo, terms, offset, uses_qr)
-                    events.append((f"swap:graph:AssertionError@check_swap_consistency{hist}:{verdict}", idx, res))
+                    verdict = retry_without_selfcheck(mpo, new, salgo, terms, offset, uses_qr or salgo == "qr")
+                    events.append((f"swap:{cls}:AssertionError@check_swap_consistency{hist}:{verdict}", idx, res))
                     if verdict == "spurious-result-correct-without-check":
                         cur = new
                         continue
